@@ -818,6 +818,16 @@ fn transform_unit<F: Backend>(cx: &mut Cx, sub: &mut u64) {
             m
         }),
         ("negative scale", Matrix4::new_nonuniform_scaling(&nalgebra::Vector3::new(-1e20, 2.0, -0.0))),
+        ("homogeneous scale w = 1e-30", {
+            let mut m = Matrix4::identity();
+            m[(3, 3)] = 1e-30;
+            m
+        }),
+        ("homogeneous scale w = 0", {
+            let mut m = Matrix4::identity();
+            m[(3, 3)] = 0.0;
+            m
+        }),
     ];
     let progs: Vec<Prog> = {
         let mut v = vec![];
